@@ -95,8 +95,9 @@ theorem matchCore_gate_some (ctx : RCtx) (fuel : Nat) (core : RuleCore)
     simp only [matchCore, hg]
     exact h
 
-/-- **gate soundness, non-matches**: a non-match stays a non-match (the environment handed
-back on failure may differ: the gate answers before the rule ran) -/
+/-- **gate soundness, non-matches**: a non-match stays a non-match (since the core works on a
+scratch copy of the caller's environment, both hand back the caller's environment: see
+`matchCore_gate_exact`) -/
 theorem matchCore_gate_none (ctx : RCtx) (fuel : Nat) (core : RuleCore)
     (n : Tree) (env : Env) (env' : Env)
     (h : matchCore ctx fuel core.ungated n env = .ok (none, env')) :
@@ -109,6 +110,39 @@ theorem matchCore_gate_none (ctx : RCtx) (fuel : Nat) (core : RuleCore)
     split
     · exact ⟨env, rfl⟩
     · exact ⟨env', h⟩
+
+/-- a failing core hands back the caller's environment -/
+theorem matchCore_none_env (ctx : RCtx) (fuel : Nat) (core : RuleCore) (n : Tree) (env env' : Env)
+    (h : matchCore ctx fuel core n env = .ok (none, env')) : env' = env := by
+  cases fuel with
+  | zero => simp [matchCore] at h
+  | succ fuel =>
+    simp only [matchCore] at h
+    split at h
+    · simp only [Except.ok.injEq, Prod.mk.injEq, true_and] at h; exact h.symm
+    · split at h
+      · cases h
+      · simp only [Except.ok.injEq, Prod.mk.injEq, true_and] at h; exact h.symm
+      · split at h
+        · cases h
+        · simp at h
+        · simp only [Except.ok.injEq, Prod.mk.injEq, true_and] at h; exact h.symm
+
+/-- **gate soundness, exact**: with a sound cache the gated core gives *the* result of the
+ungated one — node and environment, on success and on failure — whenever the latter terminates
+normally -/
+theorem matchCore_gate_exact (ctx : RCtx) (fuel : Nat) (core : RuleCore)
+    (hc : CoreKindsSound ctx core) (n : Tree) (env : Env) (v : Option Tree × Env)
+    (h : matchCore ctx fuel core.ungated n env = .ok v) :
+    matchCore ctx fuel core n env = .ok v := by
+  obtain ⟨m, e⟩ := v
+  cases m with
+  | some m => exact matchCore_gate_some ctx fuel core hc n env m e h
+  | none =>
+    obtain ⟨e', he'⟩ := matchCore_gate_none ctx fuel core n env e h
+    have h1 := matchCore_none_env ctx fuel core.ungated n env e h
+    have h2 := matchCore_none_env ctx fuel core n env e' he'
+    rw [he', h1, h2]
 
 /-- **the gate invents nothing**: a match of the gated core is a match of the ungated one -/
 theorem matchCore_ungated_of_some (ctx : RCtx) (fuel : Nat) (core : RuleCore)
